@@ -37,11 +37,18 @@ package platform
 //@     && ((d.Option == "prompt-pattern" || d.Option == "username-pattern" || d.Option == "password-pattern" || d.Option == "passphrase-pattern" || d.Option == "return-char" || d.Option == "transport-type") ==> typeis(d.Value, "string"))
 //@     && ((d.Option == "read-delay" || d.Option == "timeout-ops") ==> typeis(d.Value, "float64") || typeis(d.Value, "int"))
 //@     && (d.Option == "transport-system-open-args" ==> isStrList(d.Value))
+//@     && ((d.Option == "auth-bypass" || d.Option == "auth-strict-key") ==> d.Value == nil || typeis(d.Value, "bool"))
 // secondsAsDuration(f): a float number of seconds as a time.Duration (f * 1e9 ns, then truncated), as documented
 //@ spec secondsAsDuration(f int) int := toint(fmul(f, flit(1000000000)))
 //@ spec strList(x any) []string
 //@ axiom #strlist-len forall x any :: {strList(x)} len(strList(x)) == len(as(x, "[]interface{}"))
 //@ axiom #strlist-elems forall x any, k int :: {strList(x)[k]} 0 <= k && k < len(as(x, "[]interface{}")) ==> strList(x)[k] == as(as(x, "[]interface{}")[k], "string")
+// from the documentation of the two switches, not from the code (F18): `auth-strict-key: true` asks for strict checking - the
+// default - and must NOT yield the option that switches it off; `auth-bypass: false` must not switch the bypass on. An entry
+// without a value keeps its old flag meaning. noOption is ignored by every object it is applied to.
+//@ func noOption [C19 C14]
+//@   pure
+//@   ensures result == util.ErrIgnoredOption
 // secsOf(v): a yaml number of seconds as a float - the value itself when yaml decoded a float, the converted whole number
 // when it decoded an int ("timeout-ops: 60"; F14: that used to panic)
 //@ spec secsOf(v any) int
@@ -54,8 +61,8 @@ package platform
 // optFor(d): the driver option a definition entry stands for (nil for names the block does not know)
 //@ spec optFor(d *optionDefinition) ref :=
 //@        d.Option == "port" ? opt_options_WithPort(as(d.Value, "int"))
-//@      : d.Option == "auth-bypass" ? opt_options_WithAuthBypass()
-//@      : d.Option == "auth-strict-key" ? opt_options_WithAuthNoStrictKey()
+//@      : d.Option == "auth-bypass" ? ((d.Value == nil || as(d.Value, "bool")) ? opt_options_WithAuthBypass() : funcref("noOption"))
+//@      : d.Option == "auth-strict-key" ? ((d.Value != nil && as(d.Value, "bool")) ? funcref("noOption") : opt_options_WithAuthNoStrictKey())
 //@      : d.Option == "prompt-pattern" ? opt_options_WithPromptPattern(compiled(as(d.Value, "string")))
 //@      : d.Option == "username-pattern" ? opt_options_WithUsernamePattern(compiled(as(d.Value, "string")))
 //@      : d.Option == "password-pattern" ? opt_options_WithPasswordPattern(compiled(as(d.Value, "string")))
@@ -76,7 +83,7 @@ package platform
 //@   loop 1 invariant rangeindex < len(as(v, "[]interface{}")) && len(out) == len(as(v, "[]interface{}"))
 //@   loop 1 invariant forall j int :: 0 <= j && j <= rangeindex ==> typeis(as(v, "[]interface{}")[j], "string") && out[j] == as(as(v, "[]interface{}")[j], "string")
 
-//@ func (*optionDefinitions).asOptions [C19]
+//@ func (*optionDefinitions).asOptions [C19 C14]
 //@   requires #documented-types forall i int :: 0 <= i && i < len(val(o)) ==> val(o)[i] != nil && docType(val(o)[i])
 //@   modifies alloc()
 //@   ensures #one-option-per-entry len(result) == len(val(o))
